@@ -74,7 +74,7 @@ Proof.
   { intros f Hf. assert (G : gap c = gap c / sec * sec) by (pose proof (Z.div_mod (gap c) sec); unfold sec in *; lia).
     rewrite G at 1. rewrite ceil_secs_add.
     replace (now n + _ - now n - gap c / sec) with (ceil_secs (around f (expire c))) by lia. apply ttl_window; assumption. }
-  destruct o as [id f|i f1 f2|w ks|ks|k v f|dt| |g s0 d|k g ttl|kc]; simpl in *.
+  destruct o as [id f|i f1 f2|w ks|ks|k v f|dt| |g s0 d|k g ttl|kc|ide]; simpl in *.
   - pose proof (take_pk_upd (freshP c (now n)) c f e n id) as T.
     destruct (take_pk c f e n id) as [[e' n'] r]. apply T; simpl; auto.
   - destruct Hd as [D1 D2].
@@ -91,6 +91,8 @@ Proof.
   - contradiction.
   - contradiction.
   - apply upd_refl.
+  - pose proof (take_pk_dberr_upd (freshP c (now n)) e n ide) as T.
+    destruct (take_pk_dberr e n ide) as [[e' n'] r]. apply T.
 Qed.
 
 (* ================= index gap ================= *)
